@@ -62,12 +62,26 @@ Print Assumptions C03_failure_is_inert.
 (* (4) from a banned or blacklisted address every handshake fails, is inert, and does not even consume the challenge *)
 Theorem C03_gated :
   forall hmac v s k h cn, wf s -> conns s k = Some cn ->
-  (black s (c_addr cn) = true \/ banned s (c_addr cn) = true) ->
+  (blocked s (c_addr cn) = true \/ banned s (c_addr cn) = true) ->
   o_auth (snd (handle hmac MaxFailures PermanentBanAt v s k (Some h))) = Some AFail /\
   inert s (fst (handle hmac MaxFailures PermanentBanAt v s k (Some h))) /\
   pending_of (fst (handle hmac MaxFailures PermanentBanAt v s k (Some h))) k = pending_of s k.
 Proof. intros hmac. exact (gated hmac MaxFailures PermanentBanAt). Qed.
 Print Assumptions C03_gated.
+
+(* restart of the server process (ERestart is an event of every history above): the blacklist gate — exact-IP and CIDR
+   entries, permanent or unexpired — and the client table survive, every connection and registry entry is dropped
+   (so nobody is authenticated after it, by C03_auth_step_justified), and a short-lived entry for a' that lapsed before
+   the restart removes only the exact-IP entry of a'.  C03_gated applies unchanged to the state after the restart. *)
+Theorem C03_restart_keeps_blacklist :
+  forall hmac v s lapsed a,
+  let s' := fst (step hmac MaxFailures PermanentBanAt v s (ERestart lapsed)) in
+  (lapsed = None -> blocked s' a = blocked s a) /\
+  (black s (k_cidr a) = true -> blocked s' a = true) /\
+  (forall a', lapsed = Some a' -> a <> a' -> blocked s' a = blocked s a) /\
+  (forall k, conns s' k = None) /\ (forall x, index s' x = None) /\ clients s' = clients s.
+Proof. intros hmac. exact (restart_keeps_blacklist hmac MaxFailures PermanentBanAt). Qed.
+Print Assumptions C03_restart_keeps_blacklist.
 
 (* (5) the registry maps client x to connection k only if k is authenticated as x — after every history *)
 Theorem C03_registry_respects_auth :
